@@ -6,7 +6,7 @@ ENGINES = [
     {"name": "E1 symsem", "path": "vlib/symsem.py + vlib/sym.py", "kind_free_text":
         "real inference pipeline executed with symbolic weights (SymReal proxies through the real "
         "SemiringProbability; z3 Bool semiring for the world dimension)",
-     "serves_properties": ["C01", "C06", "C07", "C08", "C25", "C26", "C29"]},
+     "serves_properties": ["C01", "C03", "C04", "C06", "C07", "C08", "C25", "C26", "C29"]},
     {"name": "E2 refsem", "path": "vlib/refsem.py", "kind_free_text":
         "independent reference distribution semantics as z3 terms", "serves_properties": ["C01"]},
     {"name": "E3 tv", "path": "vlib/tv.py", "kind_free_text":
@@ -47,4 +47,10 @@ CHECKS["C26"] = dict(engine="E1 symsem", category=TV, technique="symbolic semiri
 CHECKS["C29"] = dict(engine="E1 symsem (diffcheck)", category=TV, technique=RVR + "; extension histories seeded",
     text="Union prepared from scratch vs db.extend() + add_statement sequence (child, incl. a second-level extension) and base vs parent-after-extension (isolation), with interleaved queries/groundings on parent and partial child: z3 proves identity of every query function.",
     note="<= 4 added statements, seeded splits (3 quick / 20 thorough per skeleton). Interleaved calls that would raise on a partial program are tried on a scratch engine first.")
+CHECKS["C03"] = dict(engine="E1 symsem (diffcheck)", category=TV, technique=RVR + "; schedules = seeded permutations of every batch of sibling evaluation messages, injected through init_message_stack",
+    text="Default buffered engine vs the same engine with a FIFO that permutes each batch of sibling 'e' messages: the two results are rational functions of symbolic weights and z3 proves them identical, so two schedules differing in a single world are told apart. Accept/reject decisions and instance sets are compared too.",
+    note="The schedule quantifier is a seeded sample (4 quick / 40 thorough per skeleton), not solver-decided. No repo hook: harness-side engine subclass.")
+CHECKS["C04"] = dict(engine="E1 symsem (diffcheck)", category=TV, technique=RVR + "; configurations = unbuffered, rc_first, seeded RandomOrderQueue from engine.rst",
+    text="Default engine vs StackBasedEngine(unbuffered=True), (unbuffered=True, rc_first=True) and the documented random e-message order: z3 proves identity of the query functions; accept/reject compared. Three classes of genuine disagreement are recorded as known findings (matched by engine mode + exception type + call site).",
+    note="Random orders are seeded samples. Known findings suppress only the listed (mode, exception, call-site) triples; any value disagreement is still a violation.")
 NOT_APPLICABLE = {}
